@@ -18,7 +18,7 @@ import (
 //    -> seq=<canonical system calls in the destination directory> res=<code> dst=<state> tmp=<state> reader=<ok|BAD>
 // kill  <old> <umask> <mode> <kind> <pieces> <fault> <cbmode> <name> <j>     (SIGKILL on entry to the j-th <name> call, 1-based)
 //    -> seq=<calls completed before the kill> dst=<state> tmp=<state> reader=<ok|BAD>
-// kind: wf | commit | abort;  fault: none | cb:<j> | write:<k>:<ERR> | close:<ERR> | rename:<ERR>;
+// kind: wf | commit | abort;  fault: none | cb:<j> | panic:<j> | write:<k>:<ERR> | close:<ERR> | rename:<ERR>;
 // cbmode: p | s | k (what the callback does with a Write error: propagate / swallow and stop / swallow and go on);
 // name: open | write | close | rename | unlink
 type traceArea struct{}
@@ -78,6 +78,11 @@ func enumerate(s scenario, full bool, emit func(string)) {
 	}
 	if s.kind == "wf" {
 		js := map[int]bool{0: true, np: true, np / 2: true}
+		if np <= 6 {
+			for j := 0; j <= np; j++ {
+				js[j] = true
+			}
+		}
 		if full {
 			for j := 0; j <= np && j < 12; j++ {
 				js[j] = true
@@ -88,7 +93,7 @@ func enumerate(s scenario, full bool, emit func(string)) {
 		}
 		for j := 0; j <= np; j++ {
 			if js[j] {
-				faults = append(faults, "cb:"+strconv.Itoa(j)+" p")
+				faults = append(faults, "cb:"+strconv.Itoa(j)+" p", "panic:"+strconv.Itoa(j)+" p")
 			}
 		}
 	}
@@ -117,6 +122,7 @@ func enumerate(s scenario, full bool, emit func(string)) {
 	kills("none p", nw)
 	if s.kind == "wf" {
 		kills("cb:"+strconv.Itoa(np/2)+" p", nw)
+		kills("panic:"+strconv.Itoa(np)+" p", nw)
 	}
 	if full {
 		for _, f := range faults {
@@ -157,6 +163,7 @@ func scenarios(full bool) []scenario {
 		scenario{"file:70000:600", "22", "644", "wf", strconv.Itoa(2 * b)},
 		scenario{"file:70000:600", "22", "644", "wf", strconv.Itoa(b) + "," + strconv.Itoa(b+1)},
 		scenario{"file:70000:600", "22", "644", "wf", "99990," + strconv.Itoa(b+1)},
+		scenario{"absent", "22", "644", "wf", "100," + strconv.Itoa(b-100) + ",1,5"}, // < N, exactly N, > N handed over
 	)
 	out = append(out,
 		scenario{"file:5:644", "77", "666", "wf", "1000x70"},
@@ -201,7 +208,7 @@ func quickFull(s scenario) bool {
 	}
 	switch s.pieces {
 	case "0", "1", strconv.Itoa(b + 1), "1000x200", "1000x70", strconv.Itoa(2 * b), strconv.Itoa(b) + "," + strconv.Itoa(b+1),
-		"99990," + strconv.Itoa(b+1), "200000":
+		"99990," + strconv.Itoa(b+1), "200000", "100," + strconv.Itoa(b-100) + ",1,5":
 		return true
 	case "1000x" + strconv.Itoa((b+1)/1000) + "," + strconv.Itoa((b+1)%1000):
 		return true
@@ -379,7 +386,7 @@ func runStrace(dir, dst string, s scenario, cbFail int, cbMode string, injects [
 	args = append(args, "-o", tf, self(), "child", s.umask, s.mode, dst, s.kind, s.pieces, strconv.Itoa(cbFail), cbMode)
 	cmd := exec.Command("strace", args...)
 	cmd.Env = append(os.Environ(), "GODEBUG=asyncpreemptoff=1")
-	out, _ := cmd.Output()
+	out, runErr := cmd.Output()
 	text, err := os.ReadFile(tf)
 	if err != nil {
 		return "", nil, "no-trace-file"
@@ -389,6 +396,9 @@ func runStrace(dir, dst string, s scenario, cbFail int, cbMode string, injects [
 		if strings.HasPrefix(l, "res=") {
 			res = l[4:]
 		}
+	}
+	if ee, ok := runErr.(*exec.ExitError); ok && res == "" && ee.ExitCode() == 2 {
+		res = "panic" // strace exits with the status of the traced process; 2 = Go's exit status for a panic
 	}
 	return res, parseTrace(string(text), dir, dst), ""
 }
@@ -455,6 +465,9 @@ func (traceArea) Run(line string) string {
 	switch fp[0] {
 	case "cb":
 		cbFail = atoi(fp[1])
+	case "panic": // the child dies of the unrecovered panic (exit status 2) after the deferred Close has run
+		cbFail = atoi(fp[1])
+		cbMode += "!"
 	case "write":
 		wantInj, wantIdx = "write", atoi(fp[1])+1
 		injects = append(injects, fmt.Sprintf("%s:error=%s:when=%d", sys.name["write"], fp[2], sys.offset["write"]+wantIdx))
